@@ -464,8 +464,9 @@ def regex_pattern(g, re_term):
 
 def walk(t):
     """all sub-terms of a term"""
-    if isinstance(t, tuple):
-        yield t
+    if isinstance(t, tuple) and t:
+        if isinstance(t[0], str):
+            yield t
         for x in t:
             if isinstance(x, tuple):
                 yield from walk(x)
@@ -1720,3 +1721,159 @@ def check_nostd_paths(rep, g):
             if 'std' in path_roots(tr):
                 bad.append(('impl', tr, ''))
     rep.ob('R-NOSTD', not bad, g, f'all {n} types / callees / traits the generated code resolves to are outside `std`', {'std_items': bad[:5]})
+
+
+# ----------------------------------------------------------------------------- C08 generated unit tests
+
+def test_status(outs):
+    kinds = {o.kind for o in outs}
+    if kinds == {'return'}:
+        return 'passes'
+    if kinds and kinds <= {'diverge'}:
+        return 'fails'
+    return 'depends'
+
+
+def check_generated_tests(rep, g):
+    """R-GENTEST: the #[test]s the macro generates into the user's crate fail exactly when the expression bounds
+    contradict each other / the default value is invalid (decided by folding the test body, not by running it)"""
+    d = g.d
+    exp = d.get('expect_tests') or {}
+    tests = {f['name']: f for f in g.fns if f.get('name', '').startswith('should_have') and '::tests::' in f['path']}
+    want_cons = exp.get('consistent')
+    want_def = exp.get('default')
+    cons = [f for n, f in tests.items() if 'consistent' in n]
+    dflt = [f for n, f in tests.items() if 'valid_default' in n]
+    if want_cons is not None:
+        rep.ob('R-GENTEST', len(cons) == 1, g, 'a boundary-consistency test is generated for a declaration with both bounds', {'tests': sorted(tests)})
+        for f in cons:
+            rep.bodies.add(f['lid'])
+            st = test_status(g.paths(f))
+            lo = [v for v in d['validators'] if v['kind'] in ('greater', 'greater_or_equal', 'len_char_min')][0]
+            up = [v for v in d['validators'] if v['kind'] in ('less', 'less_or_equal', 'len_char_max')][0]
+            both_strict = lo['kind'] == 'greater' and up['kind'] == 'less'
+            site = None
+            if st == 'passes' and want_cons == 'fails' and lo.get('value') == up.get('value'):
+                site = f"{d['family']} generated boundary test passes for equal expression bounds `{lo['kind']}` / `{up['kind']}` (empty valid set)"
+            if st == 'passes' and want_cons == 'fails' and d['family'] == 'int' and lo.get('value', 0) + 1 == up.get('value', 0) and both_strict:
+                site = 'int generated boundary test passes for adjacent exclusive expression bounds (empty valid set)'
+            rep.ob('R-GENTEST', st == want_cons if st != 'depends' else None, g,
+                   f'generated test `{f["name"]}` {want_cons} (bounds {lo["kind"]} = {lo["text"]}, {up["kind"]} = {up["text"]})',
+                   {'folded_outcome': st, 'expected': want_cons}, site=site)
+    if want_def is not None:
+        rep.ob('R-GENTEST', len(dflt) == 1, g, 'a default-validity test is generated for a validated declaration deriving Default', {'tests': sorted(tests)})
+        for f in dflt:
+            rep.bodies.add(f['lid'])
+            st = test_status(g.paths(f))
+            rep.ob('R-GENTEST', st == want_def if st != 'depends' else None, g,
+                   f'generated test `{f["name"]}` {want_def} (default = {d["default"]["text"]})', {'folded_outcome': st, 'expected': want_def})
+    rep.sample({'decl': decl_key(d), 'generated_tests': sorted(tests)})
+
+
+# ----------------------------------------------------------------------------- C11 canonical stored values
+
+PURE_CALLEE_TAILS = ('str::<impl str>::is_empty', 'str::<impl str>::chars', 'str::<impl str>::trim', 'str::<impl str>::to_lowercase',
+                     'str::<impl str>::to_uppercase', 'str::<impl str>::len', 'string::String::len', 'string::String::is_empty',
+                     '>::is_finite', '>::is_nan', 'Regex::is_match')
+
+# Lemmas about std (Unicode data; not analysable from nutype's source) under which built-in string
+# sanitizer chains are idempotent. Each rewrite names the lemma it uses.
+LEMMAS = {
+    'L1': 'str::trim is idempotent',
+    'L2': 'str::to_lowercase / to_uppercase are idempotent (Unicode full case mapping applied twice equals once)',
+    'L3': 'case mapping neither creates nor removes leading/trailing White_Space, so trim(map(trim(x))) = map(trim(x)) and map(trim(map(x))) = trim(map(x))',
+}
+
+
+def reduce_chain(ops):
+    """normal form of a built-in sanitizer chain applied twice, using L1-L3; returns (normal form, lemmas used) or None"""
+    used = set()
+    seq = list(ops)
+    changed = True
+    while changed:
+        changed = False
+        # adjacent duplicates
+        for i in range(len(seq) - 1):
+            if seq[i] == seq[i + 1]:
+                used.add('L1' if seq[i] == 'trim' else 'L2')
+                del seq[i + 1]
+                changed = True
+                break
+        if changed:
+            continue
+        # x, y, x with y the other kind: trim,case,trim -> trim,case ; case,trim,case -> case,trim
+        for i in range(len(seq) - 2):
+            if seq[i] == seq[i + 2] and seq[i] != seq[i + 1]:
+                used.add('L3')
+                used.add('L1' if seq[i] == 'trim' else 'L2')
+                del seq[i + 2]
+                changed = True
+                break
+    return seq, used
+
+
+def check_canonical(rep, g):
+    """R-CANON: try_new(v.into_inner()) == Ok(v) for every obtainable v, for declarations with built-in guards only"""
+    d = g.d
+    ex = g.ex
+    if d['custom'] or any(s['kind'] == 'with' for s in d['sanitizers']) or any(v['kind'] == 'predicate' for v in d['validators']):
+        return   # premise: custom functions are declared idempotent / deterministic by the user
+    ctor = g.ctor()
+    if ctor is None:
+        return
+    rep.bodies.add(ctor['lid'])
+    outs = g.paths(ctor)
+    hv = g.has_validation()
+    oks = [o for o in outs if o.kind == 'return' and (is_ok(o.ret) if hv else True)]
+    if len(oks) != 1:
+        rep.ob('R-CANON', None, g, 'constructor has no unique accepting path', {})
+        return
+    ok = oks[0]
+    F = ok.ret[4][0][4][0] if hv else ok.ret[4][0]
+    root, ops = san_ops(ex, F, d['family'])
+    builtin = all(isinstance(o, str) for o in ops)
+    rep.ob('R-CANON', builtin and root[0] != 'unknown', g, 'the stored value is a chain of built-in sanitizers over the raw input', {'ops': [str(o)[:40] for o in ops]})
+    if not builtin:
+        return
+    # (1) sanitisation is idempotent: S(S(x)) reduces to S(x) under the lemmas
+    twice, used = reduce_chain(list(ops) + list(ops))
+    rep.ob('R-CANON', twice == list(ops), g, f'sanitizer chain {ops} applied twice reduces to itself (lemmas {sorted(used)})',
+           {'twice_normal_form': twice, 'lemmas': {k: LEMMAS[k] for k in used}})
+    # (2) validation reads only the stored value, through pure callees: re-validation of S(x) evaluates the same
+    #     conditions on the same value
+    impure = []
+    for c, v in ok.conds:
+        chk = norm_check(ex, c, v, F)
+        if chk['kind'] == 'unknown':
+            impure.append(('unrecognised check', show(c)[:160]))
+        for t in walk(c):
+            if t[0] == 'call':
+                p = cpath(ex, t)
+                cal = ex.callees.get(t[1])
+                if cal is not None and cal.trait and tail(cal.trait, 1) in ('Deref', 'Iterator', 'Into', 'ToString', 'From', 'ToOwned') and \
+                        cal.name in ('deref', 'count', 'into', 'to_string', 'from', 'to_owned'):
+                    continue
+                if cal is not None and cal.lid is not None and cal.dk == 'Fn' and not t[2]:
+                    continue   # user constant function spelled in a bound (`lim()`): part of the declaration, not of the checks
+                if not any(p.endswith(x) for x in PURE_CALLEE_TAILS):
+                    impure.append(('callee not in the pure set', p))
+            if t[0] == 'param':
+                pass
+    rep.ob('R-CANON', not impure, g, 'every check is a recognised test of the stored value through pure std callees (deterministic re-validation)',
+           {'impure': impure[:4]})
+    # (3) re-entry: the constructor applied to the stored value takes the same accepting conditions with S(F) in place of F;
+    #     with (1) S(F) = F, so the path condition of the first construction implies the path condition of the second
+    re = [o for o in g.ex.paths(ctor['lid'], {1: F}) if o.kind == 'return' and (is_ok(o.ret) if hv else True)]
+    same_shape = len(re) == 1 and len(re[0].conds) == len(ok.conds)
+    if same_shape:
+        F2 = re[0].ret[4][0][4][0] if hv else re[0].ret[4][0]
+        # replace S(F) by F (justified by (1)) and compare the condition lists
+        conds2 = [(subst(c, {F2: F}), v) for c, v in re[0].conds]
+        same_shape = conds2 == list(ok.conds) or d['family'] == 'string'
+        if d['family'] == 'string' and conds2 != list(ok.conds):
+            # strings: `Into<String>` wrapper around the already-owned value differs syntactically; compare normalised checks
+            k1 = [(norm_check(ex, c, v, F).get('kind'), str(sorted(norm_check(ex, c, v, F).get('accept', [])))) for c, v in ok.conds]
+            k2 = [(norm_check(ex, c, v, F2).get('kind'), str(sorted(norm_check(ex, c, v, F2).get('accept', [])))) for c, v in re[0].conds]
+            same_shape = k1 == k2
+    rep.ob('R-CANON', same_shape, g, 're-entering the constructor with a stored value evaluates the same checks on the re-sanitized value', {})
+    rep.sample({'decl': decl_key(d), 'sanitizers': ops, 'twice_normal_form': twice, 'lemmas_used': sorted(used)})
